@@ -4,6 +4,7 @@ EXTENDS Timing, Json
 
 R4      == {0, 5, 25, 35}          \* responses: instant, fast, > 2 s, > 2 s + widest gap
 R025    == {0, 25}
+R0812   == {0, 8, 12}              \* about a second: a burst falls behind by accumulation
 G135    == {1, 3, 5}
 G1235   == {1, 2, 3, 5}
 G0135   == {0, 1, 3, 5}
@@ -11,6 +12,7 @@ G15     == {1, 5}
 G1_30   == {1, 30}
 G1230   == {1, 2, 30}
 G1530   == {1, 5, 30}
+G0230   == {0, 2, 30}              \* equal-time bursts (gap 0), a little spacing, pauses
 G013530 == {0, 1, 3, 5, 30}
 One     == {1}
 OneTwo  == {1, 2}
